@@ -18,7 +18,7 @@ for p in props:
     if not os.path.exists(w):
         subprocess.check_call(["git", "-C", "/repo", "worktree", "add", "--detach", "-q", w, "HEAD"])
     earlier = []
-    for d in sorted(glob.glob(os.path.join(V, "seeded", pid + "*-agent*"))):
+    for d in ([] if os.environ.get("NOEARLIER") else sorted(glob.glob(os.path.join(V, "seeded", pid + "*-agent*")))):
         m = json.load(open(os.path.join(d, "meta.json")))
         earlier.append("- %s  [needed: %s]" % (m["change"], m["needs_to_manifest"]))
     anchors = p.get("anchors", {})
